@@ -116,6 +116,42 @@ register('C11',
          'Coq proof (automaton lemma by induction over the event list + inductive machine invariant) + enumerated and random histories replayed against the real tables',
          'DESIGN.md §7 C11')
 
+register('C01',
+         'Coq theorem over the Layer-B machine for every well-formed trace (any number of transactions and flushes, keys reused '
+         'after delete, every plugin set, both strategies): after every event, the newest version of every live versioned entity '
+         'is a non-DELETE row holding exactly its versioned columns, and a removed entity has no version or a newest DELETE '
+         '(C01_newest_version_equals_live_row, by an inductive invariant whose step is C01_flush_step); every row a flush adds '
+         'belongs to an entity with a tracked insert / delete / real update (C01_rows_only_for_tracked_changes). The environment '
+         'assumptions (flush_wf) are monitored on every recorded trace; where the real environment violates them the property '
+         'itself fails on the code: one such class stays an open known finding (row switch, Refuted/C01_refuted.v), three were '
+         'repaired. Every run compares model and real tables after every flush and evaluates the property on the snapshots.',
+         COMMON_NOTE + 'The SQLAlchemy session is environment (recorded traces). Shapes: flat classes with int / composite / string keys, '
+         'aliased column, class-level option overrides; inheritance shapes and expunge are not generated yet.',
+         'Coq proof (inductive invariant over event traces: operations map, version-object cache, rows vs live tables) + vm_compute replay of recorded traces',
+         'DESIGN.md §7 C01')
+
+register('C13',
+         'Coq theorems: an update whose history shows changes on excluded columns / excluded or unversioned relationships only is '
+         'not tracked; untracked entities get no row (every row a flush adds belongs to a tracked event); such an object does not '
+         'make the session count as modified and a flush without a modified object creates no transaction record; the stored '
+         'data and key of a version are functions of the non-excluded column values only. Histories mixing excluded and versioned '
+         'changes (excluded column, re-included column, excluded relationship) are run on the real code and checked after every commit. '
+         'The schema clause is C12, the revert clause C05.',
+         COMMON_NOTE + 'One exclusion predicate (key in exclude and not in include) is reflected from the real configuration into the model.',
+         'Coq proof (lemmas on the tracker predicates + machine invariant) + vm_compute replay of recorded traces',
+         'DESIGN.md §7 C13')
+
+register('C17',
+         'Coq theorems: changed_entities (rows filtered by transaction id and version table) contains exactly the rows stamped with the '
+         'id; with the plugin the names recorded for the current transaction are exactly the classes of the operations map, one '
+         'entry per class, entries of other transactions untouched; every unprocessed operation leaves its row at the current id '
+         'and every new row belongs to an operation. At every commit of every generated history the transaction_changes rows '
+         'are compared with the classes having a row stamped with each id.',
+         COMMON_NOTE + 'The composition "operations map = classes with a row" at commit is carried by the two theorems plus the replay; '
+         'Transaction.changed_entities itself is a plain filter query. Flat classes only.',
+         'Coq proof (list lemmas on add_changes + fold over operations) + vm_compute replay of recorded traces',
+         'DESIGN.md §7 C17')
+
 ALL = ['C%02d' % i for i in range(1, 21)]
 
 
